@@ -58,4 +58,7 @@ def units(ctx):
         'BOUNDED: 41 operators vs independent Python models on all '
         'collections of length <= 3 over {0,1,2} (tuple and one-shot '
         'iterator), integer arguments in [-1, 3]'))
+    from contracts import utils as _ut
+    from vlib.pyvc.unit import contract_unit as _cu2
+    us += [_cu2(c, world_setup=_ut.setup) for c in _ut.predicate_contracts()]
     return us
